@@ -73,6 +73,12 @@ func c03Judge(c c03Case, res *syncResult) (string, string) {
 	// target must have applied every forwarded command whose source bytes were completely
 	// delivered 500 ms (of the bubble's clock) or more before
 	for j, w := range want {
+		if c.Cfg.AtTick {
+			// a command arriving in the timer case postpones the flush to a later tick (by design:
+			// the sender only flushes on the timer when its queue is empty); only the idle-stream
+			// bound above ("never applied after 1.1 s of silence") is judged
+			break
+		}
 		if w.Idx >= len(res.DeliveredAt) {
 			continue
 		}
@@ -246,6 +252,18 @@ func TestVerif_C03(t *testing.T) {
 	}
 	// reduced configurations x streams up to lenSched under every schedule within the deviation bound
 	for _, cfg := range reduced {
+		c03Words(lenSched, cfg.TargetDB != -1, func(word []int) {
+			if len(word) > 0 {
+				one(c03Case{Cfg: cfg, Word: word}, dev)
+			}
+		})
+	}
+	// reduced configurations x streams up to lenSched with deliveries inside the sender's timer case
+	for _, cfg := range reduced {
+		if cfg.DBFilter != 0 && !ev.Thorough() {
+			continue // the timer logic does not look at the database filter
+		}
+		cfg.Pauses, cfg.AtTick = false, true
 		c03Words(lenSched, cfg.TargetDB != -1, func(word []int) {
 			if len(word) > 0 {
 				one(c03Case{Cfg: cfg, Word: word}, dev)
